@@ -31,6 +31,38 @@ CHECKS = {
    technique="runtime monitoring: the real threshold methods and acceptance decisions executed for every n in 1..100000 against integer arithmetic",
    text="Exhaustive for the stated range: SuperMajority()/TrustCount() of real PeerSet values for every n = 1..100000 against 'least k with 3k>2n' and 'accepted count > n/3' and the derived intersection facts; random branching add/remove/re-add sequences through WithNewPeer/WithRemovedPeer against a model of distinct keys; the real CheckBlock and SetAnchorBlock for all n<=16, k<=n with real keys.",
    note="For n>1500 the PeerSet is assembled from the same exported fields NewPeerSet fills (maps shared between successive n). Refusal of sufficient signatures is not flagged."),
+ "C03": dict(engine="dagcheck", cat="exploration", ref="DESIGN.md §3 C03",
+   technique="runtime monitoring: differential execution of one DAG by many real Hashgraph instances (orders, stores, caches, batchings, sub-DAGs)",
+   text="Each seeded synthetic DAG is executed by a reference real Hashgraph and ~14 variants (random linear extensions, fresh process state, Badger, cache sizes from the measured in-flight bound, batched consensus passes, downward-closed sub-DAGs); per-event round/witness/Lamport/fame/round-received and all blocks must be identical (prefix for sub-DAGs). Batching differences are a recorded known finding; every other dimension is strict.",
+   note="Static validator set; variants ending in a store-miss error below the default cache are outside the supported range and dropped (counted)."),
+ "C07": dict(engine="dagcheck", cat="exploration", ref="DESIGN.md §3 C07",
+   technique="runtime monitoring over an input grammar: tampered insertion attempts against a harness-side admission predicate plus state-digest and listing invariants",
+   text="Valid DAGs are fed to a real Hashgraph through the real insert path with ~60 hostile attempts per case (each body field altered with/without re-signing by the Byzantine creator, equivocations, wrong/duplicate/negative/skipped indexes, unknown parents, foreign creators, membership requests signed by others), directly and through wire decoding; an inadmissible event must be refused, a refusal must leave a state digest unchanged, per-creator listings must stay gap-free with index == position.",
+   note="A valid event being refused is not flagged. Panics during an attempt count as refusal here (C08 judges survival)."),
+ "C08": dict(engine="hostile", cat="exploration", ref="DESIGN.md §3 C08",
+   technique="runtime monitoring with hostile input generation: recover-instrumented synchronous RPC path plus real TCP streams against running nodes in child processes",
+   text="Warmed-up networks of real nodes receive batches of hostile messages from a value grammar: all request types through the wire encoding into processRPC (babbling and suspended victims, events validly signed by a Byzantine validator with hostile block signatures), hostile Sync/EagerSync/FastForward/Join responses consumed by pulling, catching-up and joining victims, raw byte streams and malformed JSON on a real TCP transport. No panic / process death, valid exchanges keep working, delivered blocks unchanged, new transactions still commit.",
+   note="In-process tier stops a case at its first panic; process death in the TCP tier is reported through the worker's exit. WebRTC not exercised."),
+ "C09": dict(engine="nodesim+puppet", cat="exploration", ref="DESIGN.md §3 C09",
+   technique="runtime monitoring: invariant scan of stored block signatures and the anchor after every step, under adversarial signature payloads from puppet validators and pool injection",
+   text="Histories with puppet validators (< n/3) gossiping hostile block signatures, plus valid signatures by strangers / removed / not-yet-effective validators injected into pools. After every step: each recorded signature verifies against the node's own body and its signer is in the block's round set; the anchor has > n/3 valid distinct signatures and never moves backwards; honest nodes only sign delivered blocks over the final body.",
+   note="Puppets never equivocate; the harness verifies signatures itself."),
+ "C12": dict(engine="nodesim+tamperer", cat="exploration", ref="DESIGN.md §3 C12",
+   technique="runtime monitoring over mutations of valid inputs: reference acceptance rule plus full state digest around core.fastForward and the node-level flow",
+   text="Valid (block, frame, snapshot) triples harvested from honest nodes are tampered (every block field, frame component, signature-map manipulation incl. one signer under several key spellings) and offered to lagging / fresh / previously reset victims through core.fastForward and Node.fastForward with a Byzantine responder; responses failing the reference rule must be refused and leave hashgraph, store, validator sets and application untouched.",
+   note="A rule-satisfying response being refused is not flagged."),
+ "C13": dict(engine="nodesim", cat="exploration", ref="DESIGN.md §3 C13",
+   technique="runtime monitoring: agreement / validator-set / frame monitors extended to fast-forwarded nodes in histories with resets",
+   text="Histories with validators that lose their data and reset from an honest anchor (any serving peer, chained), fast-sync joiners, anchors inside pending membership windows; reset nodes' blocks from anchor+1, their validator-set function and all nodes' frames per round are compared after every step.",
+   note="A reset node is judged only for as long as it can insert what it receives (property's own escape clause)."),
+ "C14": dict(engine="nodesim+forger", cat="exploration", ref="DESIGN.md §3 C14",
+   technique="runtime monitoring over forged inputs: forged self-signed validator sets offered to victims under a state digest",
+   text="Forged responses (1-4 stranger keys, self-made validator set, correctly self-signed block, empty or copied frame, any block index) are offered to victims in three states through core.fastForward and through the node-level flow next to honest responders; they must be refused with the state digest unchanged.",
+   note="'Reason to trust' = configured peers, genesis peers, current validators and derived sets. A known Byzantine validator forging is outside this property."),
+ "C18": dict(engine="nodesim+puppet / dagcheck", cat="exploration", ref="DESIGN.md §3 C18",
+   technique="runtime monitoring: per-block timestamp oracle from the harness's own record of claimed times, with lying puppet validators and synthetic DAGs with skewed clocks",
+   text="For each delivered block the timestamp must lie between the two middle claimed times of the famous witnesses of its round-received and within the honest famous witnesses' range when fewer than a third lie; exercised with puppets claiming extreme times in nodesim and with lying creators in synthetic DAGs.",
+   note="Any value between the two middle elements counts as the median for even counts."),
 }
 
 REASONS_NOT_YET = "check not built yet in this session (planned; see DESIGN.md)"
@@ -72,6 +104,12 @@ def main():
         "engines": [
             {"name": "nodesim", "path": "/verif/harness", "serves_properties": [p for p in ALL if p in CHECKS and CHECKS[p]["engine"] == "nodesim"],
              "kind_free_text": "deterministic single-threaded network of real node.Node objects driven through a synchronous harness transport; monitors at the commit callback, RPC boundary and store API"},
+            {"name": "dagcheck", "path": "/verif/harness/dag.go", "serves_properties": ["C03", "C07", "C18"],
+             "kind_free_text": "synthetic fork-free DAG generator; one DAG executed by many fresh real Hashgraph instances; tamperer over valid events"},
+            {"name": "hostile", "path": "/verif/harness/c08.go", "serves_properties": ["C08"],
+             "kind_free_text": "hostile value grammar delivered to real nodes in-process (with recover and attribution) and over real TCP (child processes)"},
+            {"name": "fastsync", "path": "/verif/harness/ff.go", "serves_properties": ["C12", "C13", "C14"],
+             "kind_free_text": "harvests valid fast-forward responses from honest nodes, tampers / forges them and applies them to victims under a full state digest"},
             {"name": "thresholds", "path": "/verif/harness/thresholds.go", "serves_properties": [p for p in ALL if p in CHECKS and CHECKS[p]["engine"] == "thresholds"],
              "kind_free_text": "executes the real quorum arithmetic and acceptance decisions over an exhaustive range of set sizes"},
         ],
